@@ -188,6 +188,11 @@ func c07AckOnly(c *Ctx, v *vocab) {
 				if !callTo(v.bSend)(e) && !callTo(v.connSend)(e) {
 					continue
 				}
+				// the designated sink: the value drained from ackQueue is written by the draining
+				// goroutine (whatever a type assertion on the path narrowed its static type to)
+				if e.Call != nil && len(e.Call.Args) > 0 && ackQueueValue(fi, v, t.Ev[:i], e.Call.Args[0]) {
+					continue
+				}
 				if argIs(0, "packet", "Puback")(e) {
 					r.Fail(fi.Name+":send(*packet.Puback)", e.Pos, len(in.Traces), "a PUBACK is written directly instead of through the ack closure handed to Backend.Publish", c.witness(t)...)
 				}
@@ -269,6 +274,26 @@ func c07AckOnly(c *Ctx, v *vocab) {
 	}
 	sort.Strings(rs)
 	r.Check("ackQueue:single receiver", len(rs) == 1, 0, 1, fmt.Sprintf("receivers of ackQueue: %v (exactly one goroutine function must drain it)", rs))
+}
+
+// ackQueueValue reports whether arg is the variable bound by a receive from ackQueue earlier on the path.
+func ackQueueValue(fi *FuncInfo, v *vocab, before []*Event, arg ast.Expr) bool {
+	id, ok := ast.Unparen(arg).(*ast.Ident)
+	if !ok {
+		return false
+	}
+	o := fi.Pkg.TypesInfo.ObjectOf(id)
+	if o == nil {
+		return false
+	}
+	for _, p := range before {
+		if p.Kind == EvRecv && p.ChanObj == v.fAckQueue && p.LHS != nil {
+			if lid, ok := ast.Unparen(p.LHS).(*ast.Ident); ok && fi.Pkg.TypesInfo.ObjectOf(lid) == o {
+				return true
+			}
+		}
+	}
+	return false
 }
 
 func isErrType(t types.Type) bool {
